@@ -147,3 +147,87 @@ def fn_term(file, name, qual=None):
     t = result_expr(fn, bmap)
     t = inline(t, bmap)
     return norm(t)
+
+
+def leaves(e, env=None, effects=None):
+    """All result expressions of an expression / block over its branches, with `let`s substituted and catch-all
+    bindings of a `match` / `if let` replaced by the scrutinee.  Statements with effects (`v.push(x);`) are collected
+    in `effects` (rendered after substitution).  Branch conditions are dropped: callers state what every leaf (or the
+    set of leaves) must look like."""
+    env = dict(env or {})
+    if effects is None:
+        effects = []
+    e0 = e
+    while is_node(e0) and e0["k"] == "Paren":
+        e0 = e0["e"]
+    k = e0["k"]
+    if k == "Block":
+        stmts = e0["stmts"]
+        tail = block_tail(e0)
+        for s in stmts:
+            if s is stmts[-1] and tail is not None:
+                break
+            if s["k"] == "ItemStmt":
+                continue
+            if s["k"] == "Local" and s["init"] is not None:
+                init = subst(s["init"], env)
+                p = s["pat"]
+                if p["k"] == "PType":
+                    p = p["pat"]
+                if p["k"] == "PIdent":
+                    env[p["name"]] = init
+                elif p["k"] == "PTuple" and all(x["k"] in ("PIdent", "PWild") for x in p["elems"]):
+                    for i, x in enumerate(p["elems"]):
+                        if x["k"] == "PIdent":
+                            env[x["name"]] = {"k": "Field", "line": 0, "base": init, "member": str(i)}
+                continue
+            if s["k"] == "ExprStmt":
+                effects.append(subst(s["e"], env))
+        if tail is None:
+            return []
+        return leaves(tail, env, effects)
+    if k == "If":
+        out = []
+        c = e0["cond"]
+        env_then = dict(env)
+        if c["k"] == "Let":
+            bind_pattern(c["pat"], subst(c["e"], env), env_then)
+        out += leaves(e0["then"], env_then, effects)
+        if e0["else"] is not None:
+            out += leaves(e0["else"], env, effects)
+        return out
+    if k == "Match":
+        out = []
+        scrut = subst(e0["scrut"], env)
+        for a in e0["arms"]:
+            env2 = dict(env)
+            bind_pattern(a["pat"], scrut, env2)
+            out += leaves(a["body"], env2, effects)
+        return out
+    return [subst(e0, env)]
+
+
+def bind_pattern(p, scrut, env):
+    """pattern bindings as projections of the scrutinee: a catch-all binding is the scrutinee itself, a struct field
+    binding is `scrut.field`, the payload of `Some(x)` / `Ok(x)` is `scrut.some` / `scrut.ok`, tuple elements `scrut.i`"""
+    while p["k"] in ("PRef", "PType"):
+        p = p["pat"]
+    k = p["k"]
+    if k == "PIdent":
+        if p.get("sub") is None and p["name"][:1].islower():
+            env[p["name"]] = scrut
+        return
+    if k == "PStruct":
+        for f in p["fields"]:
+            bind_pattern(f["pat"], {"k": "Field", "line": 0, "base": scrut, "member": f["name"]}, env)
+        return
+    if k == "PTupleStruct":
+        ctor = last(p["path"])
+        for i, x in enumerate(p["elems"]):
+            member = ctor.lower() if len(p["elems"]) == 1 else "%s%d" % (ctor.lower(), i)
+            bind_pattern(x, {"k": "Field", "line": 0, "base": scrut, "member": member}, env)
+        return
+    if k == "PTuple":
+        for i, x in enumerate(p["elems"]):
+            bind_pattern(x, {"k": "Field", "line": 0, "base": scrut, "member": str(i)}, env)
+        return
